@@ -324,6 +324,62 @@ func C07(c *fw.Ctx) {
 			}
 		}
 	}
+	// every list-like construct of the grammar with n items, n over every 2^k-1, 2^k, 2^k+1 up to 2^11 and
+	// 250..260: arguments of each variadic built-in, of a fixed-arity built-in and of a user function (too
+	// many: a reported error), parameters, elements of an array literal, properties of an object literal,
+	// declared names of one declaration, operands of one chain, statements of one block, nested groupings
+	{
+		P, V, F, R := model.KwPrint, model.KwVar, model.KwFun, model.KwReturn
+		ns := scaleSizes(11)
+		for n := 250; n <= 260; n++ {
+			ns = append(ns, n)
+		}
+		for _, n := range ns {
+			if n < 1 || !c.Mine() {
+				continue
+			}
+			nums := make([]string, n)
+			names := make([]string, n)
+			props := make([]string, n)
+			decls := make([]string, n)
+			for i := range nums {
+				nums[i] = fmt.Sprint(i + 1)
+				names[i] = fmt.Sprintf("q%d", i)
+				props[i] = fmt.Sprintf("q%d: %d", i, i)
+				decls[i] = fmt.Sprintf("q%d = %d", i, i)
+			}
+			list := strings.Join(nums, ", ")
+			forms := []string{
+				P + " " + model.BiMax + "(" + list + ");",
+				P + " " + model.BiMin + "(" + list + ");",
+				P + " " + model.BiLen + "(" + model.BiAppend + "([], " + list + "));",
+				P + " " + model.BiAbs + "(" + list + ");",
+				P + " " + model.BiPow + "(" + list + ");",
+				P + " " + model.BiLen + "(" + list + ");",
+				P + " " + model.BiKeys + "(" + list + ");",
+				P + " " + model.BiInput + "(" + list + ");",
+				P + " " + model.BiClock + "(" + list + ");",
+				F + " u(a) { " + R + " a; }\n" + P + " u(" + list + ");",
+				P + " " + model.BiLen + "([" + list + "]);",
+				P + " [" + list + "][" + fmt.Sprint(n-1) + "];",
+				V + " o = {" + strings.Join(props, ", ") + "};\n" + P + " " + model.BiLen + "(" + model.BiKeys + "(o));",
+				P + " " + strings.Join(nums, " + ") + ";",
+				P + " " + strings.Join(nums, " < ") + ";",
+				P + " " + strings.Join(nums, " "+model.KwAnd+" ") + ";",
+				"{ " + strings.Repeat(P+" 1; ", n) + "}",
+				P + " " + strings.Repeat("(", n) + "1" + strings.Repeat(")", n) + ";",
+				P + " " + strings.Repeat("-", n) + "1;",
+				P + " " + strings.Repeat("!", n) + "1;",
+			}
+			if n <= 255 {
+				forms = append(forms, F+" w("+strings.Join(names, ", ")+") { "+R+" q0; }\n"+P+" w("+list+");", F+" w2("+strings.Join(names, ", ")+") { "+R+" q0; }\n"+P+" w2(1);")
+			}
+			forms = append(forms, V+" "+strings.Join(decls, ", ")+";\n"+P+" q0;")
+			for fi, f := range forms {
+				sane(c, P+" \"first\";\n"+f+"\n"+P+" \"last\";\n", "l1\n", fmt.Sprintf("n-items|form%d", fi), false)
+			}
+		}
+	}
 	// a runtime error on, or after, a very long line (a string literal, a comment, an array literal of
 	// every length 2^k-1, 2^k, 2^k+1 for k = 12..17), preceded by an ordinary line
 	{
